@@ -206,13 +206,17 @@ def hasDupCodes : List (Int × Json) → Bool
   | [] => false
   | (n, _) :: rest => rest.any (·.1 == n) || hasDupCodes rest
 
+/-- the `default` member of a responses object, decoded as a response -/
+def defaultPart (rec : Rec) (raw : List (String × Json)) : R (List (String × Json)) :=
+  match lookupKey raw "default" with
+  | some v => do let r ← rec (.kind "response") v; pure [("default", r)]
+  | none => pure []
+
 def normResponsesProps (rec : Rec) : Json → R (List (String × Json))
   | .null => pure []
   | .obj ms => do
       let raw := rawMap ms
-      let dflt ← match lookupKey raw "default" with
-        | some v => do let r ← rec (.kind "response") v; pure [("default", r)]
-        | none => pure []
+      let dflt ← defaultPart rec raw
       let codes ← statusEntries rec raw
       if hasDupCodes codes then outOfModel "two status-code keys denote the same integer (map order decides)"
       else pure (toGoMap (dflt ++ codes.map fun e => (itoa e.1, e.2)))
